@@ -1444,6 +1444,8 @@ def c19_rejections(rep, tier, seed):
         "vertex integral of a discontinuous element": lambda: ufl.TestFunction(D) * dP,
         "custom integral (dc)": lambda: u * v * dc,
         "negative subdomain id": lambda: u * v * ufl.dx(-3),
+        "cell average of a coefficient": lambda: ufl.cell_avg(f) * v * ufl.dx,
+        "facet average of a coefficient": lambda: ufl.facet_avg(f) * v * ufl.ds,
     }
     opts = get_options({})
     for what, mk in cases.items():
